@@ -381,6 +381,138 @@ int main(void){
 }
 '''
 
+# Functions with a finite domain, evaluated by the real code over their WHOLE domain (the probe #includes libconfig.c,
+# so static functions are reachable); the Lean side proves the model equal to these tables for every argument.
+FUNC_PROBE = r'''
+#define _GNU_SOURCE
+#include <stdio.h>
+#include <string.h>
+#define main libconfig_probe_unused_main
+#include "%(lib)s/libconfig.c"
+#undef main
+int main(void){
+  int c, t, f, a; char buf[4];
+  printf("B NAME_FIRST 0");
+  for(c = 1; c < 256; ++c){ buf[0] = (char)c; buf[1] = 0; printf(" %%d", __config_validate_name(buf) ? 1 : 0); }
+  printf("\nB NAME_REST 0");
+  for(c = 1; c < 256; ++c){ buf[0] = 'a'; buf[1] = (char)c; buf[2] = 0; printf(" %%d", __config_validate_name(buf) ? 1 : 0); }
+  printf("\nB TYPE_SCALAR");
+  for(t = 0; t <= 8; ++t) printf(" %%d", __config_type_is_scalar(t) ? 1 : 0);
+  printf("\nB TYPE_AGGREGATE");
+  for(t = 0; t <= 8; ++t){ config_setting_t st; memset(&st, 0, sizeof st); st.type = (short)t; printf(" %%d", config_setting_is_aggregate(&st) ? 1 : 0); }
+  printf("\nB TYPE_NUMBER");
+  for(t = 0; t <= 8; ++t){ config_setting_t st; memset(&st, 0, sizeof st); st.type = (short)t; printf(" %%d", config_setting_is_number(&st) ? 1 : 0); }
+  /* config_setting_add(array, NULL, t2) on an empty array (a = 0) or an array whose first element has type a = 2..6 */
+  printf("\nB ARRAY_ADD");
+  for(a = 1; a <= 6; ++a) for(t = 0; t <= 8; ++t){
+    config_t cf; config_setting_t *arr; config_init(&cf);
+    arr = config_setting_add(config_root_setting(&cf), "a", CONFIG_TYPE_ARRAY);
+    if(a >= 2) config_setting_add(arr, NULL, a);
+    printf(" %%d", config_setting_add(arr, NULL, t) ? 1 : 0);
+    config_destroy(&cf);
+  }
+  /* config_setting_set_format(setting of type t, f) */
+  printf("\nB FORMAT_OK");
+  for(t = 0; t <= 8; ++t) for(f = 0; f <= 3; ++f){
+    config_t cf; config_setting_t *st; config_init(&cf);
+    st = config_setting_add(config_root_setting(&cf), "x", t);
+    printf(" %%d", (st && config_setting_set_format(st, (unsigned short)f)) ? 1 : 0);
+    config_destroy(&cf);
+  }
+  /* config_set_tab_width / config_set_float_precision over all unsigned short arguments */
+  { config_t cf; int w; config_init(&cf);
+    printf("\nV TAB_WIDTH");
+    for(w = 0; w < 65536; ++w){ config_set_tab_width(&cf, (unsigned short)w); printf(" %%d", (int)config_get_tab_width(&cf)); }
+    printf("\nV FLOAT_PRECISION");
+    for(w = 0; w < 65536; ++w){ config_set_float_precision(&cf, (unsigned short)w); printf(" %%d", (int)config_get_float_precision(&cf)); }
+    config_destroy(&cf); }
+  /* the writer's rendering of every one-byte string */
+  printf("\n");
+  for(c = 1; c < 256; ++c){
+    config_t cf; config_setting_t *st; char *m = NULL; size_t l = 0; FILE *fp; char *q1, *q2;
+    config_init(&cf); st = config_setting_add(config_root_setting(&cf), "s", CONFIG_TYPE_STRING);
+    buf[0] = (char)c; buf[1] = 0; config_setting_set_string(st, buf);
+    fp = open_memstream(&m, &l); config_write(&cf, fp); fclose(fp);
+    q1 = strchr(m, 34); q2 = strrchr(m, 34);
+    printf("E %%d ", c); if(q1 && q2 && q2 > q1) for(++q1; q1 < q2; ++q1) printf("%%02x", (unsigned char)*q1); printf("\n");
+    free(m); config_destroy(&cf);
+  }
+  return 0;
+}
+'''
+
+def function_tables():
+    info = {}
+    work = tempfile.mkdtemp(prefix='translate-', dir=os.environ.get('VERIF_WORK', os.path.join(VERIF, '.work')))
+    tabs, runs, esc = {}, {}, {}
+    try:
+        src = os.path.join(work, 'fprobe.c')
+        open(src, 'w').write(FUNC_PROBE % {'lib': os.path.join(REPO, 'lib')})
+        exe = os.path.join(work, 'fprobe')
+        libs = [os.path.join(REPO, 'lib', f) for f in ['scanner.c', 'grammar.c', 'scanctx.c', 'strbuf.c', 'strvec.c', 'util.c']]
+        r = subprocess.run(['gcc', '-w', '-O0', '-o', exe, src] + libs +
+                           ['-I' + os.path.join(REPO, 'lib'), '-DHAVE_USELOCALE', '-DHAVE_NEWLOCALE',
+                            '-DHAVE_FREELOCALE', '-DLIBCONFIG_STATIC'], capture_output=True, text=True)
+        if r.returncode == 0:
+            out = subprocess.run([exe], capture_output=True, text=True, timeout=60).stdout
+            for line in out.splitlines():
+                p = line.split()
+                if not p:
+                    continue
+                if p[0] == 'B':
+                    tabs[p[1]] = [int(x) for x in p[2:]]
+                elif p[0] == 'V':
+                    # compress the full value table into maximal segments (lo, hi, identity?, constant)
+                    v = [int(x) for x in p[2:]]
+                    segs = []; i = 0
+                    while i < len(v):
+                        j = i
+                        if v[i] == i:
+                            while j + 1 < len(v) and v[j + 1] == j + 1:
+                                j += 1
+                            segs.append((i, j, 1, 0))
+                        else:
+                            while j + 1 < len(v) and v[j + 1] == v[i]:
+                                j += 1
+                            segs.append((i, j, 0, v[i]))
+                        i = j + 1
+                    runs[p[1]] = segs
+                elif p[0] == 'E':
+                    esc[int(p[1])] = list(bytes.fromhex(p[2] if len(p) > 2 else ''))
+        else:
+            info['_probe_error'] = r.stderr[-2000:]
+    finally:
+        shutil.rmtree(work, ignore_errors=True)
+    L = ['import LibconfigModel.Basic',
+         '/- GENERATED by tools/translate.py: functions of lib/libconfig.c with a finite domain, evaluated by the real',
+         '   code over their whole domain — do not edit. -/',
+         'namespace Libconfig.Generated', '']
+    def boollist(name, doc):
+        L.append('/-- %s -/' % doc)
+        L.append('def %s : List Bool := [%s]' % (name, ', '.join('true' if b else 'false' for b in tabs.get(name.upper() if False else name, []))))
+    for key, lname, doc in [
+        ('NAME_FIRST', 'nameFirstTable', '`__config_validate_name` of the one-byte string `c` (index = byte; 0 = the empty string)'),
+        ('NAME_REST', 'nameRestTable', '`__config_validate_name` of the two-byte string `a c` (index = byte; entry 0 unused)'),
+        ('TYPE_SCALAR', 'typeScalarTable', '`__config_type_is_scalar(t)`, t = 0..8'),
+        ('TYPE_AGGREGATE', 'typeAggregateTable', '`config_setting_is_aggregate` of a setting of type t = 0..8'),
+        ('TYPE_NUMBER', 'typeNumberTable', '`config_setting_is_number` of a setting of type t = 0..8'),
+        ('ARRAY_ADD', 'arrayAddTable', '`config_setting_add(array, NULL, t) != NULL` for an empty array (row 0) and an array whose first element has type 2..6 (rows 1..5); 9 columns t = 0..8'),
+        ('FORMAT_OK', 'formatOkTable', '`config_setting_set_format(setting of type t, f)`, row t = 0..8, column f = 0..3')]:
+        L.append('/-- %s -/' % doc)
+        L.append('def %s : List Bool := [%s]' % (lname, ', '.join('true' if b else 'false' for b in tabs.get(key, []))))
+    for key, lname, doc in [('TAB_WIDTH', 'tabWidthSegs', '`config_set_tab_width(w)` then `config_get_tab_width`, for EVERY unsigned short `w`, as maximal segments (lo, hi, identity?, constant): on lo..hi the result is `w` itself or the constant'),
+                            ('FLOAT_PRECISION', 'floatPrecisionSegs', '`config_set_float_precision(p)` then the getter, for every unsigned short `p`, same encoding')]:
+        L.append('/-- %s -/' % doc)
+        L.append('def %s : List (Nat × Nat × Bool × Nat) := [%s]' % (lname, ', '.join('(%d, %d, %s, %d)' % (a, b, 'true' if c else 'false', d) for a, b, c, d in runs.get(key, []))))
+    L.append('/-- what `config_write` prints between the quotes for the one-byte string `c` (index c - 1, c = 1..255) -/')
+    L.append('def writerEscapeTable : List Bytes := [%s]' % ', '.join('[%s]' % ', '.join(map(str, esc.get(c, []))) for c in range(1, 256)))
+    L += ['', 'end Libconfig.Generated', '']
+    write_if_changed(os.path.join(OUT, 'FunctionTables.lean'), '\n'.join(L))
+    info['tables'] = {k: len(v) for k, v in tabs.items()}
+    info['runs'] = {k: len(v) for k, v in runs.items()}
+    info['escapes'] = len(esc)
+    return info
+
 def file_define(path, name):
     try:
         return c_define(open(os.path.join(REPO, 'lib', path)).read(), name)
@@ -456,7 +588,8 @@ def main():
     toks, pinfo = parser_tables()
     sinfo = scanner_tables(toks)
     cinfo = constants()
-    info = {'scanner': sinfo, 'parser': pinfo, 'constants': cinfo}
+    finfo = function_tables()
+    info = {'scanner': sinfo, 'parser': pinfo, 'constants': cinfo, 'function_tables': finfo}
     try:
         import inventory
         info['inventory'] = inventory.generate(REPO, OUT, write_if_changed)
